@@ -963,9 +963,18 @@ class Node:
                     break
 
         if receiving_app:
-            waiting = self._peer_waiting_answer.setdefault(conn.ident, {})
-            waiting[(message.header.hop_by_hop_identifier,
-                     message.header.end_to_end_identifier)] = time.time()
+            # under the node lock, as the connection thread may be removing
+            # this very connection, together with its pending answer tracking
+            with self._busy_lock:
+                if conn.ident not in self.connections:
+                    self.logger.warning(
+                        f"{conn} has been closed while its request "
+                        f"{hex(message.header.hop_by_hop_identifier)} was "
+                        f"being handled")
+                    return
+                waiting = self._peer_waiting_answer.setdefault(conn.ident, {})
+                waiting[(message.header.hop_by_hop_identifier,
+                         message.header.end_to_end_identifier)] = time.time()
             receiving_app.receive_request(message)
             return
 
